@@ -619,3 +619,88 @@ def r_preslimit(prog, R, rid):
         else:
             r.ok(k, f.loc(f.ln))
     r.require(n >= 3, "write path of names not found")
+
+
+def _mentions_backslash(f):
+    for b in f.blocks.values():
+        br = f.branch(b)
+        if br and any(const_val(x) == 92 for x in walk(br[0]) if isinstance(x, dict)):
+            return True
+    return False
+
+
+def r_suffix(prog, R, rid):
+    r = R.rule(rid, "the compression lookup matches a stored name only at a label boundary: the '.' in front of the matched suffix is a separator, not an escaped dot that belongs to a label "
+               "(the splitter treats '\\.' as a literal dot; the matcher must look at the escape character too, or 'a\\.example.com' after 'example.com' is cut inside a label)", floor=1,
+               analysis="must-pass-through: every path to the acceptance of a match passes a test of the escape character (in the function or a helper of the same file)")
+    f = prog.func("ares_nameoffset_find")
+    acc = [(b, i, el) for b, i, el in f.elements() if el["k"] == "asg" and is_var(strip(el["e"]["l"])) and strip(el["e"]["l"])["n"].startswith("longest") and not is_null(el["e"].get("r"))]
+    if not r.require(bool(acc), "ares_nameoffset_find: acceptance of a match not found"):
+        return
+    helpers = set()
+    for b, i, c in f.calls():
+        t = prog.resolve(f, c)
+        if t is not None and t.file == f.file and _mentions_backslash(t):
+            helpers.add(c.get("id"))
+    loops = f.natural_loops()
+    accb = acc[0][0].id
+    outer = [h for h, body in loops.items() if accb in body]
+    outer_h = max(outer, key=lambda h: len(loops[h])) if outer else None
+    into_outer = [(p_, outer_h) for p_ in f.blocks[outer_h].preds] if outer_h is not None else []
+    tblocks = {b.id for b in f.blocks.values() if f.branch(b) and any(const_val(x) == 92 for x in walk(f.branch(b)[0]) if isinstance(x, dict))}
+    # variables that carry what the escape test found: written inside a loop (other than the walk over the stored names) that contains such a test
+    evars = set()
+    for h, body in loops.items():
+        if h == outer_h or not (tblocks & body):
+            continue
+        for bid in body:
+            for el in f.blocks[bid].els:
+                evars |= set(written_vars(el))
+    def rejecting(bid, succ):
+        pr = reach_avoiding(f, succ, into_outer, None, 0)
+        return succ != accb and accb not in pr
+    avoid = []
+    gates = 0
+    for b in f.blocks.values():
+        br = f.branch(b)
+        if not br:
+            continue
+        inner = any(b.id in body for h, body in loops.items() if h != outer_h and (tblocks & body))
+        mentions = b.id in tblocks or any(v["n"] in evars for v in vars_in(br[0]))
+        if mentions and not inner and any(rejecting(b.id, s_) for s_ in f.succ(b.id)):
+            gates += 1
+            avoid += [(b.id, s_) for s_ in f.succ(b.id)]
+    r.info["escape_gates"] = gates
+    # with fewer than two characters in front of the suffix there is no room for a backslash: such edges are not bypasses
+    pv = set()
+    for b, i, el in f.elements():
+        for x in walk(el.get("e")):
+            if isinstance(x, dict) and x.get("k") == "idx":
+                pv |= {v["n"] for v in vars_in(x["i"])}
+    for b in f.blocks.values():
+        br = f.branch(b)
+        if br:
+            for x in walk(br[0]):
+                if isinstance(x, dict) and x.get("k") == "idx":
+                    pv |= {v["n"] for v in vars_in(x["i"])}
+    for b in f.blocks.values():
+        br = f.branch(b)
+        if not br:
+            continue
+        for pol, tgt in ((True, br[1]), (False, br[2])):
+            if tgt is None:
+                continue
+            for c, p_ in atoms(br[0], pol):
+                op, l, rr = norm_cmp(c, p_)
+                cv = const_val(rr) if rr is not None else None
+                if is_var(strip(l)) and strip(l)["n"] in pv and ((op == "false") or (cv is not None and ((op == "<" and cv <= 2) or (op == "<=" and cv <= 1) or (op == "==" and cv in (0, 1))))):
+                    avoid.append((b.id, tgt))
+    barrier = lambda el: el["k"] == "call" and el["e"].get("id") in helpers
+    for b, i, el in acc:
+        k = "match accepted only behind an escape-aware separator test"
+        tr = element_reachable_avoiding(f, b, i, avoid, barrier)
+        if tr is not None:
+            r.viol(k, f.name, f.loc(el), "a stored name is accepted as the suffix of the name being written on a path that never looks at the escape character: for 'a\\.example.com' after 'example.com' "
+                   "the escaped dot is taken for a separator, the name is cut to 'a\\' + pointer, and the write fails with EBADNAME (a legal name that cannot be written)")
+        else:
+            r.ok(k, f.loc(el))
